@@ -814,7 +814,7 @@ pub fn execute(case: &Case, ctx: &mut Ctx) {
                         sim_days: None,
                         hash_seed: case.hash_seed,
                         init_offset: None,
-                        init_speed_unset: false,
+                        init_speed_unset: false, trace_datum_shift: 0.0,
                         nested_drift: false,
                         fric_ramp_up: None,
                     };
